@@ -415,7 +415,7 @@ pub fn basic_op(max: u32, encrypt: bool) -> BoxedStrategy<Op> {
     prop_oneof![
         12 => (name(), opts(encrypt), chunks(max)).prop_map(|(name, opts, chunks)| Op::File { name, opts, chunks }),
         2 => (name(), opts(false)).prop_map(|(name, opts)| Op::Dir { name, opts }),
-        2 => (name(), "[a-z/.\\\\é]{0,20}", opts(false)).prop_map(|(name, target, opts)| Op::Symlink { name, target, opts }),
+        2 => (name(), "[a-z/.\\\\é]{0,20}", opts(encrypt)).prop_map(|(name, target, opts)| Op::Symlink { name, target, opts }),
         2 => comment().prop_map(Op::Comment),
     ]
     .boxed()
